@@ -353,6 +353,7 @@ pub fn check_lists(
 /// Runs a line history on the real incremental parser and the batch
 /// definition; returns the first disagreement.
 pub fn check_history(env: Env, lines: &[&str]) -> Option<(String, String)> {
+    let _g = crate::engine::watch::guard("lines", |s| s.push_str(&format!("{env:?} {lines:?}")));
     let mut st = fresh_state(env);
     let mut accepted = Vec::new();
     let mut inc = RefTp::default();
@@ -585,6 +586,7 @@ fn end_to_end(env: Env, lines: &[&str]) -> Option<Violation> {
     }
     let accepted: Vec<Parsed> = lines.iter().filter_map(|l| ref_parse(l, env)).collect();
     let want = batch(&accepted);
+    let _g = crate::engine::watch::bytes_guard(text.as_bytes());
     let real = match guarded(|| rosu_map::from_str::<TimingPoints>(&text)) {
         Ok(Ok(r)) => r,
         Ok(Err(e)) => {
